@@ -99,6 +99,12 @@ def det4(m):
 # ---- extraction
 
 
+class Wrong(AnalysisError):
+    """The rule was read completely and is not a Duffy-type tensor-Gauss rule for a reason the text states (the same
+    array returned for both point sets, no points built for an adjacency, both points taken from one tensor index, a
+    weight that is not the product of the two tensor weights times a polynomial): DUFFY-STRUCT reports it."""
+
+
 def slot_counters(fn):
     """Names advanced by `+= 1` inside a loop of fn."""
     return {n.target.id for lp in ast.walk(fn) if isinstance(lp, ast.For) for n in ast.walk(lp)
@@ -153,8 +159,10 @@ def extract(ctx, adjacency):
     # the locals by role: the returned triple is (test points, trial points, weights) by position - that is what callers
     # unpack; the slot counter is the name advanced by one inside the point loops
     rets = [st for st in tail if isinstance(st, ast.Return)]
-    if len(rets) != 1 or not (isinstance(rets[0].value, ast.Tuple) and len(rets[0].value.elts) == 3 and all(isinstance(x, ast.Name) for x in rets[0].value.elts)) or len({x.id for x in rets[0].value.elts}) != 3:
-        raise AnalysisError("duffy_galerkin.rule: the rule does not end in `return <test points>, <trial points>, <weights>` of three distinct locals")
+    if len(rets) != 1 or not (isinstance(rets[0].value, ast.Tuple) and len(rets[0].value.elts) == 3 and all(isinstance(x, ast.Name) for x in rets[0].value.elts)):
+        raise AnalysisError("duffy_galerkin.rule: the rule does not end in `return <test points>, <trial points>, <weights>` of three locals")
+    if len({x.id for x in rets[0].value.elts}) != 3:
+        raise Wrong("the rule returns `%s`: the same array serves as two of (test points, trial points, weights)" % ast.unparse(rets[0].value))
     PT, PR, W = (x.id for x in rets[0].value.elts)
     ctrs = sorted(slot_counters(fn))
     if len(ctrs) != 1:
@@ -165,7 +173,8 @@ def extract(ctx, adjacency):
     e = it.env
     for need in (PT, PR, W, CTR):
         if need not in e:
-            raise AnalysisError("duffy_galerkin.rule: local `%s` is not set for adjacency %r" % (need, adjacency))
+            # the whole head was executed for this adjacency with every test decided: the branch that builds the rule was not taken
+            raise Wrong("for adjacency %r the returned array `%s` is never built (no branch of the rule is taken for it)" % (adjacency, need))
     aux = [v for k, v in e.items() if isinstance(v, Arr) and v.kind != "input" and k not in (PT, PR, W)]
     aux2, aux1 = [a for a in aux if a.ndim == 2], [a for a in aux if a.ndim == 1]
     if len(aux2) != 1 or len(aux1) != 1:
@@ -179,6 +188,9 @@ def extract(ctx, adjacency):
     if not (isinstance(pt, Arr) and isinstance(pr, Arr) and isinstance(w, Arr) and pt.ndim == 2 and pr.ndim == 2 and w.ndim == 1):
         raise AnalysisError("duffy_galerkin.rule: returned values are not (2-d points, 2-d points, 1-d weights)")
     loopvars = sorted({a for st in pt.stores for a in symex._deep_atoms(st[2]) if a.startswith("‹ι")})
+    allvars = sorted({a for arr in (pt, pr) for st in arr.stores for a in symex._deep_atoms(st[2]) if a.startswith("‹ι")})
+    if len(allvars) == 1:
+        raise Wrong("test and trial points of %r are built from %d tensor Gauss index(es) %s instead of one each: the rule is not a tensor rule in four variables" % (adjacency, len(allvars), allvars))
     if len(loopvars) != 2:
         raise AnalysisError("duffy rule: expected two tensor-point loop variables, found %s" % loopvars)
     # which is test / trial: xsi = tensor_points[0, test] is the first coordinate of the first region's test point in
@@ -224,24 +236,29 @@ def extract(ctx, adjacency):
         omega = V.atom("ω1a") * V.atom("ω1b") * V.atom("ω2a") * V.atom("ω2b")
         jk = wk.subs({a: V.const(1) for a in ("ω1a", "ω1b", "ω2a", "ω2b")})
         if not wk.eq(omega * jk):
-            raise AnalysisError("duffy %s region %d: weight is not (tensor Gauss weight) x polynomial" % (adjacency, k + 1))
+            raise Wrong("%s region %d: the weight `%r` is not (weight of the test tensor point) x (weight of the trial tensor point) x a polynomial in the four variables" % (adjacency, k + 1, wk))
         regions.append(([xt[0] - xt[1], xt[1]], [xr[0] - xr[1], xr[1]], jk))
     # tail: the shear p0 -= p1 for both point sets and the return tuple
     shear = set()
+    tail_wrong = []
     ret_ok = False
     for st in tail:
-        if isinstance(st, ast.AugAssign) and isinstance(st.op, ast.Sub):
-            tg, vl = ast.unparse(st.target), ast.unparse(st.value)
-            for nm in (PT, PR):
-                if tg == "%s[0, :]" % nm and vl == "%s[1, :]" % nm:
-                    shear.add(nm)
+        tgt = st.target if isinstance(st, ast.AugAssign) else (st.targets[0] if isinstance(st, ast.Assign) and len(st.targets) == 1 else None)
+        base = tgt.value.id if isinstance(tgt, ast.Subscript) and isinstance(tgt.value, ast.Name) else None
+        if base in (PT, PR):
+            # a transformation of a returned point array after the regions are filled: it must be the shear p0 -= p1
+            tg, vl = ast.unparse(tgt), ast.unparse(st.value)
+            if isinstance(st, ast.AugAssign) and isinstance(st.op, ast.Sub) and tg == "%s[0, :]" % base and vl == "%s[1, :]" % base and base not in shear:
+                shear.add(base)
+            else:
+                tail_wrong.append(ast.unparse(st)[:60])
         elif isinstance(st, ast.Return) and isinstance(st.value, ast.Tuple):
             ret_ok = True  # (shape of the return statement established above; which array is which is decided by position)
         else:
             raise AnalysisError("duffy_galerkin.rule: unexpected statement in the post-processing tail: %s" % ast.unparse(st)[:60])
     return {
         "regions": regions, "R": R, "guard_ok": guard_ok, "tensor_ok": tens_ok and nreg_ok and lv_ok, "npts_ok": npts_ok,
-        "shear_ok": shear == {PT, PR}, "ret_ok": ret_ok, "line": fn.lineno, "counter": CTR,
+        "shear_ok": shear == {PT, PR} and not tail_wrong, "tail_wrong": tail_wrong, "ret_ok": ret_ok, "line": fn.lineno, "counter": CTR,
     }
 
 
@@ -254,7 +271,12 @@ def npoints_function(ctx):
     for adj in ADJ:
         symex.reset()
         it = Interp(m, fn, {params[0]: opaque_atom("order"), params[1]: adj}, {})
-        out[adj] = symex.tov(it.run())
+        try:
+            out[adj] = symex.tov(it.run())
+        except AnalysisError as e:
+            if "reached a raise statement" not in str(e):
+                raise
+            out[adj] = None  # the function raises for this (valid) adjacency: reported by DUFFY-STRUCT
     return out
 
 
@@ -271,9 +293,17 @@ def check(ctx, max_degree=3):
     order = opaque_atom("order")
     evals = 0
     for adj in ADJ:
-        d = extract(ctx, adj)
+        try:
+            d = extract(ctx, adj)
+        except Wrong as e:
+            r_struct.fail(adj, DG, "rule", ctx.repo.mod(DG).fn("rule").lineno, "duffy %s structure: %s" % (adj, str(e)[:120]), str(e))
+            continue
         want_n = V.const(d["R"]) * order * order * order * order
         probs = []
+        if npf[adj] is None:
+            probs.append("number_of_quadrature_points raises for the valid adjacency %r" % adj)
+        if d["R"] < 1:
+            probs.append("the slot counter does not advance over one pair of tensor points (net step %d): every pair overwrites the same slots" % d["R"])
         if not d["guard_ok"]:
             probs.append("unknown adjacency is not rejected before building anything")
         # the slot counter runs through all points: set to 0 outside the point loops, only ever advanced by one inside
@@ -291,10 +321,10 @@ def check(ctx, max_degree=3):
             probs.append("tensor Gauss points/weights are not (x_j, x_i), w_i*w_j at slot i*n+j")
         if not d["npts_ok"]:
             probs.append("allocated number_of_points differs from regions * n^4")
-        if not npf[adj].eq(want_n):
+        if npf[adj] is not None and not npf[adj].eq(want_n):
             probs.append("number_of_quadrature_points(order, %r) = %r but the rule emits %d * order^4 points" % (adj, npf[adj], d["R"]))
         if not d["shear_ok"]:
-            probs.append("final shear p0 -= p1 is not applied to both point sets")
+            probs.append("final shear p0 -= p1 is not applied exactly once to both point sets%s" % ((" (found: %s)" % "; ".join(d["tail_wrong"])) if d.get("tail_wrong") else ""))
         if not d["ret_ok"]:
             probs.append("return tuple is not (points_test, points_trial, weights)")
         r_struct.check(not probs, adj, DG, "rule", d["line"], "duffy %s structure: %s" % (adj, "; ".join(probs)), "; ".join(probs))
@@ -333,7 +363,7 @@ def check(ctx, max_degree=3):
         r_int.check(bad is None, "%s (%d regions, %d monomials of degree <= %d)" % (adj, d["R"], nmono, max_degree), DG, "rule", d["line"],
                     "duffy %s monomial %s" % (adj, bad[:4] if bad else ""),
                     "monomial x^%s y^%s x'^%s y'^%s integrates to %s instead of %s" % (bad if bad else ("",) * 6))
-        ctx.sample({"duffy": adj, "regions": d["R"], "monomials": nmono, "region1_test_map": [repr(v) for v in d["regions"][0][0]]})
+        ctx.sample({"duffy": adj, "regions": d["R"], "monomials": nmono, "region1_test_map": [repr(v) for v in d["regions"][0][0]] if d["regions"] else []})
         if adj in ("coincident", "vertex_adjacent"):
             # mirrored pairs: region 2m+1 and 2m+2 are each other's test<->trial swap
             okm = d["R"] % 2 == 0
@@ -359,12 +389,22 @@ def _run_remap(ctx, fname, lit_args):
     symex.RANGES["J"] = N
     pts = Arr("P", "input", ndim=2, shape=[2, N])
     it = Interp(m, fn, dict(zip(params, [pts] + list(lit_args))), {"globals": {"_np": Opq("_np", "module")}})
-    r = it.run()
-    if r is None:
-        raise AnalysisError("%s%s returns nothing" % (fname, tuple(lit_args)))
-    J = V.atom("J")
-    env = {"P⟨0,J⟩": V.atom("ξ0"), "P⟨1,J⟩": V.atom("ξ1")}
-    return [symex.tov(it.index(r, [c, J], fn)).subs(env) for c in range(2)]
+    # every test of the function is decided by the literal arguments: what the run meets is what the call does
+    try:
+        r = it.run()
+        if r is None:
+            raise Wrong("%s%s returns nothing (no branch handles these valid indices)" % (fname, tuple(lit_args)))
+        J = V.atom("J")
+        env = {"P⟨0,J⟩": V.atom("ξ0"), "P⟨1,J⟩": V.atom("ξ1")}
+        return [symex.tov(it.index(r, [c, J], fn)).subs(env) for c in range(2)]
+    except AnalysisError as e:
+        if isinstance(e, Wrong):
+            raise
+        if "reached a raise statement" in str(e):
+            raise Wrong("%s%s raises for these valid indices" % (fname, tuple(lit_args)))
+        if "tensor index out of range" in str(e):
+            raise Wrong("%s%s indexes a literal table outside its extent (IndexError at run time)" % (fname, tuple(lit_args)))
+        raise
 
 
 def remaps(ctx):
@@ -383,15 +423,23 @@ def remaps(ctx):
         for b in range(3):
             if a == b:
                 continue
-            got = _run_remap(ctx, "remap_points_shared_edge", [a, b])
             want = affine((a, b, 3 - a - b))
+            try:
+                got = _run_remap(ctx, "remap_points_shared_edge", [a, b])
+            except Wrong as e:
+                r.fail("shared_edge(%d,%d)" % (a, b), DG, "remap_points_shared_edge", m.fn("remap_points_shared_edge").lineno, "remap edge (%d,%d)" % (a, b), str(e))
+                continue
             r.check(all(g.eq(w) for g, w in zip(got, want)), "shared_edge(%d,%d)" % (a, b), DG, "remap_points_shared_edge",
                     m.fn("remap_points_shared_edge").lineno, "remap edge (%d,%d)" % (a, b),
                     "maps the reference point to %s, expected %s" % (got, want))
     for v in range(3):
-        got = _run_remap(ctx, "remap_points_shared_vertex", [v])
         images = [0, 1, 2]
         images[0], images[v] = images[v], images[0]
         want = affine(tuple(images))
+        try:
+            got = _run_remap(ctx, "remap_points_shared_vertex", [v])
+        except Wrong as e:
+            r.fail("shared_vertex(%d)" % v, DG, "remap_points_shared_vertex", m.fn("remap_points_shared_vertex").lineno, "remap vertex %d" % v, str(e))
+            continue
         r.check(all(g.eq(w) for g, w in zip(got, want)), "shared_vertex(%d)" % v, DG, "remap_points_shared_vertex",
                 m.fn("remap_points_shared_vertex").lineno, "remap vertex %d" % v, "maps the reference point to %s, expected %s" % (got, want))
